@@ -33,6 +33,20 @@ theorem auth_only_if_checker_approved (cfg : Cfg) (ops : List (Nat × Ev)) (c : 
   simp only [List.nil_append] at h
   exact (h c).jid_ok
 
+/-- **auth_only_if_checker_approved, for a checker written the documented way** (only `getPassword()`; the
+library's default `checkPassword()` / `getDigest()` do the rest): a non-empty jid is `u@domain[/resource]` for a
+user `u` for which the connection itself sent the PLAIN pair (u, p) with `getPassword u = NoError p`, or a
+DIGEST-MD5 response computed from MD5(u:domain:p) for that `p`.  In particular a user for whom `getPassword`
+reports an error (unknown, rejected, temporarily failing) is never accepted — not with the empty password either. -/
+theorem auth_only_if_getPassword_approves (domain : List Char) (gp : List Char → PwRes)
+    (md5 : List Char → List Char → List Char) (ops : List (Nat × Ev)) (c : Nat) :
+    ((run (Cfg.ofGetPassword domain gp md5) init ops).1.conns c).jid ≠ [] →
+      ∃ u, (∃ ev, (c, ev) ∈ ops ∧ GpApproves gp md5 ev u) ∧
+        JidOf (Cfg.ofGetPassword domain gp md5) u ((run (Cfg.ofGetPassword domain gp md5) init ops).1.conns c).jid := by
+  intro hj
+  obtain ⟨u, ⟨ev, hm, ha⟩, hjid⟩ := auth_only_if_checker_approved (Cfg.ofGetPassword domain gp md5) ops c hj
+  exact ⟨u, ⟨ev, hm, gpApproves_of_approves domain gp md5 ev u ha⟩, hjid⟩
+
 /-- the resource part never eats into the user: when neither the approved user name nor the domain contains
 '/', "u@domain cut at its first '/'" is just `u@domain` -/
 theorem jidOf_plain (cfg : Cfg) (u j : List Char) (h : JidOf cfg u j) (hu : '/' ∉ mkBare u cfg.domain) :
@@ -151,6 +165,21 @@ example : (run demoCfg init goodScript).2 =
 example : ((run demoCfg init
     [(1, .openStream ['d']), (1, .auth false ['D', 'I', 'G', 'E', 'S', 'T', '-', 'M', 'D', '5'] .empty false),
      (1, .response false (.dresp ['m'] ['h'] true)), (1, .deliver 0), (1, .response false .empty)]).1.conns 1).jid
+    = ['m', '@', 'd'] := by decide
+
+/-- the `getPassword`-only flavour: account "m"/"p"; a DIGEST-MD5 exchange as the unknown user "n" with the
+response computed from the empty password (token `md5 n []`) fails, the right one for "m" succeeds -/
+def demoGp : Cfg := Cfg.ofGetPassword ['d'] (fun u => if u = ['m'] then .ok ['p'] else .nouser) (fun u s => u ++ ':' :: s)
+def digestName : List Char := ['D', 'I', 'G', 'E', 'S', 'T', '-', 'M', 'D', '5']
+
+example : (run demoGp init
+    [(1, .openStream ['d']), (1, .auth false digestName .empty false),
+     (1, .response false (.dresp ['n'] ['n', ':'] true)), (1, .deliver 0)]).2 =
+    [.send 1 .hdr, .send 1 (.features false false true (some true)), .send 1 (.chal false .nonce),
+     .send 1 (.failure false .notAuthorized), .send 1 .streamEnd, .closed 1] := by decide
+example : ((run demoGp init
+    [(1, .openStream ['d']), (1, .auth false digestName .empty false),
+     (1, .response false (.dresp ['m'] ['m', ':', 'p'] true)), (1, .deliver 0), (1, .response false .empty)]).1.conns 1).jid
     = ['m', '@', 'd'] := by decide
 
 /-- a spoofed `from` is dropped, the sender's own bare jid is accepted (hypothesis of `cannot_spoof` is met) -/
